@@ -33,6 +33,52 @@ def prove_compress_slice(run):
         R.verify_node(run, M.REL, c, sl, fingerprint={}, replay=replay_compress_limit)
 
 
+def prove_canonical_checks(run):
+    """check_left_canonical / check_right_canonical test every site that has to be an isometry (whole-function extraction, per-site test abstracted)"""
+    import ast
+    from vk.pyvc import engine as E
+    from vk.pyvc import run as R
+    from vk.pyvc.slice import whole_function, SliceError
+    for side, d in M.CHECK_SLICES.items():
+        try:
+            fn = R.index().find(M.REL, d["qual"])
+            sl = whole_function(fn, d["qual"].split(".")[-1] + "__sites_tested", d["subst"], ["n", "ortho"], must_hit=d["must_hit"])
+        except (E.VCError, SliceError, ValueError, StopIteration) as e:
+            run.oblig(f"extract:{d['qual']}", d["qual"], "A(pyvc)", "undecided", detail=f"function could not be extracted (stale contract): {e}")
+            continue
+        run.extra.setdefault("pyvc_slices", {})[d["qual"]] = {
+            "source": M.REL, "description": f"the whole body of {d['qual']} with " + ", ".join(f"`{a}` -> `{b}`" for a, b in d["subst"].items()) + " (docstring dropped)",
+            "extracted_text": ast.unparse(sl)}
+        R.verify_node(run, M.REL, d["contract"], sl, fingerprint=None, replay=(lambda side_: lambda cex, loc, ob: replay_canonical_check(side_, cex))(side))
+
+
+def replay_canonical_check(side, cex):
+    """native replay: a chain that is canonical except at the sites the counter-model marks as non-isometric"""
+    import numpy as np
+    from vk.specs import chain as S
+    n = int(cex.get("n", 0))
+    if not (1 <= n <= 8):
+        return False, "counter-model outside the replay range"
+    ortho = cex.get("ortho")
+    marks = [bool(ortho[k]) if isinstance(ortho, (list, tuple)) and k < len(ortho) else True for k in range(n)]
+    model, sectors = S.model_zoo("spinqn", n)
+    rng = np.random.default_rng(5)
+    a = S.random_mps(model, sectors[len(sectors) // 2], 4, rng)
+    if a is None:
+        return False, "no state"
+    a = a.ensure_left_canonical() if side == "left" else a.ensure_right_canonical()
+    for k in range(n):
+        if not marks[k]:
+            t = np.array(np.asarray(a[k].array))
+            t[:, 0, :] *= 3.0                      # spoil the isometry of site k, labels untouched
+            a[k] = t
+    tested = range(n - 1) if side == "left" else range(1, n)
+    want = all(marks[k] for k in tested)
+    got = bool(a.check_left_canonical() if side == "left" else a.check_right_canonical())
+    return got != want, {"side": side, "n": n, "sites_spoiled": [k for k in range(n) if not marks[k]], "check_returned": got, "definition_says": want,
+                         "how": "vk.specs.chain.model_zoo('spinqn', n), random_mps(seed 5), ensure_<side>_canonical, then the marked site tensors scaled on one physical index"}
+
+
 def replay_compress_limit(cex, locals_, ob):
     """native replay: a random chain whose exact Schmidt ranks are used as per-bond limits must survive compress in the direction of the counter-model"""
     import numpy as np
